@@ -321,16 +321,26 @@ class _Sock:
     def recv(self, n):
         if not self.chunks:
             raise _EndOfStream()
-        return bytes(self.chunks.pop(0))
+        c = self.chunks.pop(0)
+        if c is None:
+            import zmq
+            raise zmq.error.Again()          # receive timeout: the link was idle for RCVTIMEO, the stream simply continues
+        return bytes(c)
 
     def close(self):
         pass
 
 
-def run_loop(datatype, stream, cuts):
-    """drive the real TcpClient.run() loop with a fake socket delivering the given pieces."""
+def run_loop(datatype, stream, cuts, idle=()):
+    """drive the real TcpClient.run() loop with a fake socket delivering the given pieces; after the pieces whose index
+    is in `idle` the socket times out once (zmq.error.Again)."""
     c = TcpClient("localhost", 0, datatype)
-    c.connect = lambda: setattr(c, "socket", _Sock(cuts_to_chunks(stream, cuts)))
+    pieces = []
+    for i, ch in enumerate(cuts_to_chunks(stream, cuts)):
+        pieces.append(ch)
+        if i in idle:
+            pieces.append(None)
+    c.connect = lambda: setattr(c, "socket", _Sock(pieces))
     got = []
     c.handle_messages = lambda messages: got.extend(m[0] for m in messages)
     try:
@@ -364,14 +374,18 @@ def w_runloop(arg):
         N = len(stream)
         segs = [[N]] + [[k] for k in range(1, N)] + [[1] * N] + [[3] * (N // 3)] + [[k, 1] for k in range(1, N - 1, 2)]
         for cuts in segs:
-            got = run_loop(framer, stream, cuts)
-            acc.n += 1
-            acc.cov["transitions"] += len(cuts) + 1
-            if isinstance(got, tuple):
-                acc.bad("%s:run_loop:exception:%s" % (framer, got[1]), {"kind": "runloop", "framer": framer, "stream": bytes(stream).hex(), "cuts": cuts})
-            elif got != want:
-                acc.bad("%s:run_loop:delivered_messages_differ_from_reference" % framer,
-                        {"kind": "runloop", "framer": framer, "stream": bytes(stream).hex(), "cuts": cuts, "got": got, "want": want})
+            npieces = len(cuts_to_chunks(stream, cuts))
+            idles = [()] + ([tuple(range(npieces))] if npieces <= 4 else []) + [(i,) for i in range(min(npieces, 3))]
+            for idle in idles:
+                got = run_loop(framer, stream, cuts, idle)
+                acc.n += 1
+                acc.cov["transitions"] += len(cuts) + 1 + len(idle)
+                tag = ":with_receive_timeouts" if idle else ""
+                if isinstance(got, tuple):
+                    acc.bad("%s:run_loop:exception:%s%s" % (framer, got[1], tag), {"kind": "runloop", "framer": framer, "stream": bytes(stream).hex(), "cuts": cuts, "idle": list(idle)})
+                elif got != want:
+                    acc.bad("%s:run_loop:delivered_messages_differ_from_reference%s" % (framer, tag),
+                            {"kind": "runloop", "framer": framer, "stream": bytes(stream).hex(), "cuts": cuts, "idle": list(idle), "got": got, "want": want})
         acc.out.add(("runloop", framer, names))
     return acc.res()
 
@@ -417,11 +431,12 @@ def run(ctx):
 def replay(case):
     if case["kind"] == "runloop":
         stream = list(bytes.fromhex(case["stream"]))
-        got = run_loop(case["framer"], stream, case["cuts"])
+        got = run_loop(case["framer"], stream, case["cuts"], tuple(case.get("idle", ())))
         want = [r["msg"] for r in FRAMERS[case["framer"]][3](stream)]
+        tag = ":with_receive_timeouts" if case.get("idle") else ""
         if isinstance(got, tuple):
-            return [("%s:run_loop:exception:%s" % (case["framer"], got[1]), case)]
-        return [("%s:run_loop:delivered_messages_differ_from_reference" % case["framer"], case)] if got != want else []
+            return [("%s:run_loop:exception:%s%s" % (case["framer"], got[1], tag), case)]
+        return [("%s:run_loop:delivered_messages_differ_from_reference%s" % (case["framer"], tag), case)] if got != want else []
     if case["kind"] == "netsource":
         s = ns_run(tuple(case["seq"]), tuple(case["batching"]), case.get("cls", "net"))
         return [(s, case), (s + ":RtlSdrSource", case)] if s else []
